@@ -594,8 +594,29 @@ func c19R3(p *Prog, r *Report) {
 		return
 	}
 	r.Fn(FuncName(ap))
-	// name and number appended from the same value, which is row + g.Firstchan
+	// name and number appended from the same value, which is row + g.Firstchan (in the
+	// function itself or in a helper it leaves the numbering to)
 	var nameNum, numVal ssa.Value
+	apTop := ap
+	for _, h := range DeepFuncs(apTop, 2) {
+		if h == apTop {
+			continue
+		}
+		found := false
+		Instrs(h, func(in ssa.Instruction) {
+			if call, ok := in.(*ssa.Call); ok {
+				if b, isB := call.Call.Value.(*ssa.Builtin); isB && b.Name() == "append" {
+					if _, f, _, okf := FieldOf(call.Call.Args[0]); okf && f == "chanNumbers" {
+						found = true
+					}
+				}
+			}
+		})
+		if found {
+			ap = h
+			r.Fn(FuncName(ap))
+		}
+	}
 	Instrs(ap, func(in ssa.Instruction) {
 		call, ok := in.(*ssa.Call)
 		if !ok {
@@ -1073,7 +1094,20 @@ func c19R5(p *Prog, r *Report) {
 			continue
 		}
 		r.Fn(FuncName(top))
-		for _, fn := range recvHelpers(top, 2) {
+		hosts := recvHelpers(top, 2)
+		for _, h := range DeepFuncs(top, 2) {
+			// ... and methods of the embedded common source that the step is left to
+			if h.Signature.Recv() != nil && typeName(h.Signature.Recv().Type()) == "AnySource" && name != "AnySource" {
+				dup := false
+				for _, x := range hosts {
+					dup = dup || x == h
+				}
+				if !dup {
+					hosts = append(hosts, h)
+				}
+			}
+		}
+		for _, fn := range hosts {
 			// fields appended to
 			appended := map[string]ssa.Instruction{}
 			Instrs(fn, func(in ssa.Instruction) {
